@@ -16,7 +16,7 @@ def enc(o):
 
 
 def dec(o, key=None):
-    if isinstance(o, str) and key not in ('sep', 'comment', 'property', 'kind', 'oracle'):
+    if isinstance(o, str) and key not in ('sep', 'comment', 'property', 'kind', 'oracle', 'ops_names') and o not in ('add', 'mul', 'copy', 'pwc', 'pwl'):
         try:
             return Fr(o)
         except Exception:
@@ -30,6 +30,10 @@ def dec(o, key=None):
 
 def fix(sc):
     """after decoding: trains as tuples"""
+    if 'ops' in sc:
+        sc['ops'] = [tuple([o[0]] + [int(v) if k == 0 or o[0] != 'mul' else v for k, v in enumerate(o[1:])]) for o in sc['ops']]
+    if 'k' in sc:
+        sc['k'] = int(sc['k'])
     if 'trains' in sc:
         sc['trains'] = [(list(s), ts, te) for s, ts, te in sc['trains']]
     if 'raw' in sc:
@@ -72,9 +76,151 @@ def half_grid_pairs(T):
             yield s1, s2, Fr(0), Fr(T)
 
 
+def func_scen(prop, tier, rng):
+    q = tier == 'quick'
+    T = 6
+    def rfunc(kind):
+        inner = sorted(rng.sample(range(1, T), rng.randint(0, T - 1)))
+        if kind == 'pwc':
+            return [enc(a) for a in gens.pwc_on(rng, T, inner)]
+        if kind == 'pwl':
+            return [enc(a) for a in gens.pwl_on(rng, T, inner)]
+        return [enc(a) for a in gens.disc_on(rng, T, inner)]
+    n = (150 if q else 2500)
+    hp = gens.half_points(T)
+    for _ in range(n):
+        if prop == 'C09':
+            kind = rng.choice(['pwc', 'pwl'])
+            k = rng.randint(2, 3)
+            funcs = [rfunc(kind) for _ in range(k)]
+            ops = []
+            nobj = k
+            for _ in range(rng.randint(1, 6 if q else 8)):
+                r = rng.random()
+                if r < 0.5:
+                    i, j = rng.randrange(nobj), rng.randrange(nobj)
+                    if i == j:
+                        continue     # f.add(f): numpy views make this ill-defined; not in the property
+                    ops.append(('add', i, j))
+                elif r < 0.75:
+                    ops.append(('mul', rng.randrange(nobj), rng.choice([Fr(2), Fr(1, 2), Fr(-1), Fr(3)])))
+                else:
+                    ops.append(('copy', rng.randrange(nobj)))
+                    nobj += 1
+            yield {'kind': kind, 'funcs': funcs, 'ops': [list(o) for o in ops]}
+        elif prop == 'C10':
+            kind = rng.choice(['pwc', 'pwl'])
+            ivs_ = []
+            for _ in range(rng.randint(1, 3)):
+                a = rng.choice(hp[:-1]); b = rng.choice([h for h in hp if h > a])
+                ivs_.append([a, b])
+            yield {'kind': kind, 'func': rfunc(kind), 'intervals': ivs_, 'times': rng.sample(hp, 5) + [Fr(0), Fr(T)]}
+        else:
+            k = rng.randint(1, 4)
+            ivs_ = []
+            for _ in range(rng.randint(1, 3)):
+                a = rng.choice(hp[:-1]); b = rng.choice([h for h in hp if h > a])
+                ivs_.append([a, b])
+            yield {'funcs': [rfunc('disc') for _ in range(k)], 'intervals': ivs_, 'k': rng.randint(0, 3)}
+
+
+def scenario_of_case(prop, op, fields):
+    """turn a disagreeing correspondence case into an oracle scenario (the disagreement usually is
+    the failing input); None when the op has no direct scenario form"""
+    try:
+        if op in ('isi_profile', 'spike_profile', 'coinc_profile', 'order_profile', 'coinc_single', 'dir_profile'):
+            s1, s2, p = fields
+            ts, te = p[0], p[1]
+            strip = (lambda s: [] if (op in ('isi_profile', 'spike_profile') and list(s) == [ts, te]) else list(s))
+            kw = {'mrts': 0, 'ri': 0, 'max_tau': 0}
+            if op == 'isi_profile':
+                kw['mrts'] = p[2]
+            elif op == 'spike_profile':
+                kw['mrts'], kw['ri'] = p[2], int(p[3])
+            else:
+                kw['max_tau'], kw['mrts'] = p[2], p[3]
+            sc = {'trains': [(strip(s1), ts, te), (strip(s2), ts, te)], 'kw': kw}
+        elif op in ('add_pwc', 'add_pwl'):
+            kind = op[4:]
+            k = 2 if kind == 'pwc' else 3
+            sc = {'kind': kind, 'funcs': [enc(fields[:k]), enc(fields[k:])], 'ops': [['add', 0, 1]]}
+            return dec(sc) if prop == 'C09' else None
+        elif op == 'add_disc':
+            return dec({'funcs': [enc(fields[:3]), enc(fields[3:])], 'intervals': [], 'k': 0}) if prop == 'C11' else None
+        elif op.startswith('pwc_') or op.startswith('pwl_'):
+            kind = op[:3]
+            k = 2 if kind == 'pwc' else 3
+            rest = fields[k:]
+            sc = {'kind': kind, 'func': enc(fields[:k]), 'intervals': [], 'times': []}
+            name = op[4:]
+            if name in ('integral', 'avrg') and rest:
+                sc['intervals'] = [enc(rest[0])]
+            elif name == 'avrg_list' and rest:
+                sc['intervals'] = [enc(rest[0][i:i + 2]) for i in range(0, len(rest[0]) - 1, 2)]
+            elif name in ('call', 'call_seq') and rest:
+                sc['times'] = enc(rest[0])
+            return dec(sc) if prop == 'C10' else None
+        elif op.startswith('disc_'):
+            rest = fields[3:]
+            sc = {'funcs': [enc(fields[:3])], 'intervals': [], 'k': 0}
+            name = op[5:]
+            if name in ('integral', 'avrg') and rest:
+                sc['intervals'] = [enc(rest[0])]
+            elif name == 'integral_list' and rest:
+                sc['intervals'] = [enc(rest[0][i:i + 2]) for i in range(0, len(rest[0]) - 1, 2)]
+            elif name == 'plot' and rest:
+                sc['k'] = int(rest[0][0])
+            return dec(sc) if prop == 'C11' else None
+        else:
+            p, ix, tfs = fields[0], fields[1], fields[2:]
+            if op in ('merge', 'psth', 'poisson', 'time_series', 'isi_lengths', 'default_thresh_sq') and prop != 'C20':
+                return None
+            kw = {'mrts': p[0], 'ri': int(p[1]), 'max_tau': p[2]}
+            sc = {'trains': [(list(t[2:]), t[0], t[1]) for t in tfs], 'kw': kw}
+            if p[4] != 0:
+                sc['interval'] = [p[5], p[6]]
+            if ix and ix[0] != 0:
+                sc['indices'] = [int(v) for v in ix[1:]]
+            if op == 'filter_by_sync':
+                sc['thr'] = p[7]
+            if op == 'psth':
+                sc['bins'] = int(p[7])
+            if op == 'reconcile' or len({(t[0], t[1]) for t in tfs}) > 1 or any(list(t[2:]) != sorted(set(t[2:])) for t in tfs):
+                sc['raw'] = sc['trains']
+        return complete(prop, sc)
+    except Exception:
+        return None
+
+
+def complete(prop, sc):
+    """fill the extra keys an oracle expects"""
+    if len(sc.get('trains', [])) < 2 and prop not in ('C20',):
+        return None
+    if prop == 'C13' and 'raw' not in sc:
+        sc['raw'] = sc['trains']
+    if prop != 'C13' and 'raw' in sc:
+        return None
+    N = len(sc['trains'])
+    if prop == 'C15':
+        m = sc['kw'].get('mrts') or 0
+        sc['m1'], sc['m2'] = (Fr(0), Fr(m)) if m else (Fr(1, 4), Fr(1))
+        sc['kw']['mrts'] = 0
+    if prop == 'C16':
+        mt = sc['kw'].get('max_tau') or 0
+        sc['mt1'], sc['mt2'] = (Fr(mt), Fr(mt) * 2) if mt else (Fr(1, 2), Fr(1))
+        sc['kw']['max_tau'] = 0
+    if prop == 'C17' and 'thr' not in sc:
+        sc['thr'] = Fr(1, 2)
+    return sc
+
+
 def scenarios(prop, tier, rng):
     """yield scenarios for property `prop`"""
     q = tier == 'quick'
+    if prop in ('C09', 'C10', 'C11'):
+        for sc in func_scen(prop, tier, rng):
+            yield fix(dec(sc))
+        return
     n = {'C01': 400, 'C02': 400, 'C03': 600, 'C04': 250, 'C05': 200, 'C06': 100, 'C07': 300, 'C08': 80,
          'C13': 80, 'C14': 80, 'C15': 80, 'C16': 400, 'C17': 400, 'C18': 120, 'C19': 300, 'C20': 400}.get(prop, 100)
     if not q:
@@ -132,4 +278,8 @@ def scenarios(prop, tier, rng):
                 sc['bins'] = rng.choice([1, 2, 4, 8])
             if prop in ('C01', 'C02', 'C03', 'C04', 'C16', 'C17', 'C20', 'C15'):
                 sc.pop('interval', None)
+            if prop in ('C05', 'C18') and rng.random() < 0.25:
+                sc['kw']['mrts'] = 'auto'
+        if prop == 'C13' and rng.random() < 0.3:
+            sc['kw']['mrts'] = 'auto'
         yield sc
